@@ -408,34 +408,41 @@ Qed.
 Theorem max_value_refines : forall oo l, ord_ok oo -> wf_list l -> max_value oo l = s_max_value (abs l).
 Proof.
   intros oo l Hoo Hwf.
-  rewrite (max_value_order_independent oo ord_id l (mkList (abs l) [] []) Hoo ord_id_ok
+  unfold max_value.
+  rewrite (max_value_order_independent_tb tie_break_now TieIteration oo ord_id l (mkList (abs l) [] []) Hoo ord_id_ok
              (Permutation_sym (abs_items_perm _ Hwf))).
-  unfold max_value, get_max_item. cbn. apply max_step_values.
+  unfold max_value_tb, get_max_item_tb. cbn. apply max_step_values.
 Qed.
 Theorem min_value_refines : forall oo l, ord_ok oo -> wf_list l -> min_value oo l = s_min_value (abs l).
 Proof.
   intros oo l Hoo Hwf.
-  rewrite (min_value_order_independent oo ord_id l (mkList (abs l) [] []) Hoo ord_id_ok
+  unfold min_value.
+  rewrite (min_value_order_independent_tb tie_break_now TieIteration oo ord_id l (mkList (abs l) [] []) Hoo ord_id_ok
              (Permutation_sym (abs_items_perm _ Hwf))).
-  unfold min_value, get_min_item. cbn. apply min_step_values.
+  unfold min_value_tb, get_min_item_tb. cbn. apply min_step_values.
 Qed.
+
+Lemma max_value_unfold : forall oo l, max_value oo l = option_map snd (get_max_item oo l).
+Proof. reflexivity. Qed.
+Lemma min_value_unfold : forall oo l, min_value oo l = option_map snd (get_min_item oo l).
+Proof. reflexivity. Qed.
 
 (* LIST_VALUE *)
 Theorem value_of_list_refines : forall oo l, ord_ok oo -> wf_list l ->
   match get_max_item oo l with Some (_, m) => m | None => 0 end = s_value (abs l).
 Proof.
-  intros oo l Hoo Hwf. unfold s_value. rewrite <- (max_value_refines oo l Hoo Hwf). unfold max_value.
+  intros oo l Hoo Hwf. unfold s_value. rewrite <- (max_value_refines oo l Hoo Hwf). rewrite max_value_unfold.
   destruct (get_max_item oo l) as [[k m]|]; reflexivity.
 Qed.
 
 Lemma max_none_empty : forall oo l, ord_ok oo -> (max_value oo l = None <-> list_is_empty l = true).
 Proof.
-  intros oo l Hoo. rewrite <- (get_max_item_none oo Hoo l). unfold max_value.
+  intros oo l Hoo. rewrite <- (get_max_item_none oo Hoo l). rewrite max_value_unfold.
   destruct (get_max_item oo l); cbn; split; congruence.
 Qed.
 Lemma min_none_empty : forall oo l, ord_ok oo -> (min_value oo l = None <-> list_is_empty l = true).
 Proof.
-  intros oo l Hoo. rewrite <- (get_min_item_none oo Hoo l). unfold min_value.
+  intros oo l Hoo. rewrite <- (get_min_item_none oo Hoo l). rewrite min_value_unfold.
   destruct (get_min_item oo l); cbn; split; congruence.
 Qed.
 
@@ -444,7 +451,7 @@ Ltac extremes oo a b Hoo Ha Hb :=
   pose proof (max_value_refines oo b Hoo Hb) as Maxb; pose proof (min_value_refines oo b Hoo Hb) as Minb;
   pose proof (max_none_empty oo a Hoo) as Ea; pose proof (min_none_empty oo a Hoo) as Ea';
   pose proof (max_none_empty oo b Hoo) as Eb; pose proof (min_none_empty oo b Hoo) as Eb';
-  unfold max_value, min_value in *;
+  rewrite ?max_value_unfold, ?min_value_unfold in *;
   destruct (get_max_item oo a) as [[? ?]|], (get_min_item oo a) as [[? ?]|],
            (get_max_item oo b) as [[? ?]|], (get_min_item oo b) as [[? ?]|];
   cbn in Maxa, Mina, Maxb, Minb, Ea, Ea', Eb, Eb';
